@@ -663,10 +663,14 @@ pub(crate) mod convert {
             Section: read::UnwindSection<R>,
             Section::Offset: read::UnwindOffset<usize>,
         {
+            let code_alignment_factor = u8::try_from(from_cie.code_alignment_factor())
+                .map_err(|_| ConvertError::UnsupportedCfiInstruction)?;
+            let data_alignment_factor = i8::try_from(from_cie.data_alignment_factor())
+                .map_err(|_| ConvertError::UnsupportedCfiInstruction)?;
             let mut cie = CommonInformationEntry::new(
                 from_cie.encoding(),
-                from_cie.code_alignment_factor() as u8,
-                from_cie.data_alignment_factor() as i8,
+                code_alignment_factor,
+                data_alignment_factor,
                 from_cie.return_address_register(),
             );
 
@@ -717,7 +721,8 @@ pub(crate) mod convert {
         {
             let address =
                 convert_address(from_fde.initial_address()).ok_or(ConvertError::InvalidAddress)?;
-            let length = from_fde.len() as u32;
+            let length = u32::try_from(from_fde.len())
+                .map_err(|_| ConvertError::UnsupportedCfiInstruction)?;
             let mut fde = FrameDescriptionEntry::new(address, length);
 
             match from_fde.lsda() {
@@ -770,35 +775,43 @@ pub(crate) mod convert {
                     &NoConvertDebugInfoRef,
                 )
             };
-            // TODO: validate integer type conversions
+            // Values that the writer cannot represent are rejected instead of being truncated.
+            let unsupported = |_| ConvertError::UnsupportedCfiInstruction;
+            let data_offset = |factored_offset: i64| {
+                factored_offset
+                    .checked_mul(from_cie.data_alignment_factor())
+                    .and_then(|offset| i32::try_from(offset).ok())
+                    .ok_or(ConvertError::UnsupportedCfiInstruction)
+            };
             Ok(Some(match from_instruction {
                 read::CallFrameInstruction::SetLoc { .. } => {
                     return Err(ConvertError::UnsupportedCfiInstruction);
                 }
                 read::CallFrameInstruction::AdvanceLoc { delta } => {
-                    *offset += delta * from_cie.code_alignment_factor() as u32;
+                    let code_alignment_factor =
+                        u32::try_from(from_cie.code_alignment_factor()).map_err(unsupported)?;
+                    *offset = delta
+                        .checked_mul(code_alignment_factor)
+                        .and_then(|delta| offset.checked_add(delta))
+                        .ok_or(ConvertError::UnsupportedCfiInstruction)?;
                     return Ok(None);
                 }
                 read::CallFrameInstruction::DefCfa { register, offset } => {
-                    CallFrameInstruction::Cfa(register, offset as i32)
+                    CallFrameInstruction::Cfa(register, i32::try_from(offset).map_err(unsupported)?)
                 }
                 read::CallFrameInstruction::DefCfaSf {
                     register,
                     factored_offset,
-                } => {
-                    let offset = factored_offset * from_cie.data_alignment_factor();
-                    CallFrameInstruction::Cfa(register, offset as i32)
-                }
+                } => CallFrameInstruction::Cfa(register, data_offset(factored_offset)?),
                 read::CallFrameInstruction::DefCfaRegister { register } => {
                     CallFrameInstruction::CfaRegister(register)
                 }
 
                 read::CallFrameInstruction::DefCfaOffset { offset } => {
-                    CallFrameInstruction::CfaOffset(offset as i32)
+                    CallFrameInstruction::CfaOffset(i32::try_from(offset).map_err(unsupported)?)
                 }
                 read::CallFrameInstruction::DefCfaOffsetSf { factored_offset } => {
-                    let offset = factored_offset * from_cie.data_alignment_factor();
-                    CallFrameInstruction::CfaOffset(offset as i32)
+                    CallFrameInstruction::CfaOffset(data_offset(factored_offset)?)
                 }
                 read::CallFrameInstruction::DefCfaExpression { expression } => {
                     let expression = expression.get(frame)?;
@@ -814,30 +827,24 @@ pub(crate) mod convert {
                     register,
                     factored_offset,
                 } => {
-                    let offset = factored_offset as i64 * from_cie.data_alignment_factor();
-                    CallFrameInstruction::Offset(register, offset as i32)
+                    let factored_offset = i64::try_from(factored_offset).map_err(unsupported)?;
+                    CallFrameInstruction::Offset(register, data_offset(factored_offset)?)
                 }
                 read::CallFrameInstruction::OffsetExtendedSf {
                     register,
                     factored_offset,
-                } => {
-                    let offset = factored_offset * from_cie.data_alignment_factor();
-                    CallFrameInstruction::Offset(register, offset as i32)
-                }
+                } => CallFrameInstruction::Offset(register, data_offset(factored_offset)?),
                 read::CallFrameInstruction::ValOffset {
                     register,
                     factored_offset,
                 } => {
-                    let offset = factored_offset as i64 * from_cie.data_alignment_factor();
-                    CallFrameInstruction::ValOffset(register, offset as i32)
+                    let factored_offset = i64::try_from(factored_offset).map_err(unsupported)?;
+                    CallFrameInstruction::ValOffset(register, data_offset(factored_offset)?)
                 }
                 read::CallFrameInstruction::ValOffsetSf {
                     register,
                     factored_offset,
-                } => {
-                    let offset = factored_offset * from_cie.data_alignment_factor();
-                    CallFrameInstruction::ValOffset(register, offset as i32)
-                }
+                } => CallFrameInstruction::ValOffset(register, data_offset(factored_offset)?),
                 read::CallFrameInstruction::Register {
                     dest_register,
                     src_register,
@@ -862,7 +869,7 @@ pub(crate) mod convert {
                 read::CallFrameInstruction::RememberState => CallFrameInstruction::RememberState,
                 read::CallFrameInstruction::RestoreState => CallFrameInstruction::RestoreState,
                 read::CallFrameInstruction::ArgsSize { size } => {
-                    CallFrameInstruction::ArgsSize(size as u32)
+                    CallFrameInstruction::ArgsSize(u32::try_from(size).map_err(unsupported)?)
                 }
                 read::CallFrameInstruction::NegateRaState => CallFrameInstruction::NegateRaState,
                 read::CallFrameInstruction::Nop => return Ok(None),
